@@ -1,0 +1,77 @@
+//go:build verif
+
+package security
+
+// Contracts for govc (see /verif/DESIGN.md). Comment-only file: contributes no code.
+
+// ---- C17: admission limits. The token-bucket arithmetic itself is golang.org/x/time/rate (trusted extern).
+//@ ghost var reserveCount int
+//@ ghost var cancelCount int
+//@ ghost var lastReservedOn *rate.Limiter
+//@ ghost var lastReservation *rate.Reservation
+
+//@ extern (*golang.org/x/time/rate.Limiter).Reserve()
+//@   records reserveCount = old(reserveCount) + 1
+//@   records lastReservedOn = self
+//@   records lastReservation = res
+//@   ensures res != nil && fresh(res)
+
+//@ extern (*golang.org/x/time/rate.Reservation).Cancel()
+//@   records cancelCount = old(cancelCount) + 1
+
+//@ spec func bucketKey(clientIP string, health bool) string = ite(health, concat(clientIP, ":health"), clientIP)
+
+//@ func (sv *SizeValidator) validateBodySize
+//@   property C17
+//@   ensures (res != nil) == (sv.maxBodySize > 0 && req.BodySize > sv.maxBodySize)
+
+//@ func estimateHeaderSize
+//@   property C17
+//@   loop 1 invariant true
+//@   loop 2 invariant true
+//@   ensures true
+
+//@ func (sv *SizeValidator) validateHeaderSize
+//@   property C17
+//@   ensures sv.maxHeaderSize <= 0 ==> res == nil
+
+//@ func (sv *SizeValidator) Validate
+//@   property C17
+//@   ensures res1 == nil
+//@   ensures sv.maxBodySize > 0 && req.BodySize > sv.maxBodySize ==> !res0.Allowed
+//@   ensures res0.Allowed ==> !(sv.maxBodySize > 0 && req.BodySize > sv.maxBodySize)
+
+//@ type RateLimitValidator
+//@   repinv forall k string :: xhas(self.ipLimiters, k) ==> xget(self.ipLimiters, k) != nil && xget(self.ipLimiters, k).limiter != nil
+
+//@ func (rl *RateLimitValidator) calculateRemaining
+//@   property C17
+//@   requires limiterInfo != nil
+//@   ensures res >= 0
+
+// bucket creation is one atomic LoadOrCompute on the limiter map (device 2): concurrent first requests of one
+// client share a single bucket
+//@ func (rl *RateLimitValidator) getOrCreateLimiter
+//@   property C17
+//@   atomic-once rl.ipLimiters
+//@   modifies rl.ipLimiters[all]
+//@   ensures res != nil && xhas(rl.ipLimiters, key) && xget(rl.ipLimiters, key) == res
+//@   ensures old(xhas(rl.ipLimiters, key)) ==> res == old(xget(rl.ipLimiters, key))
+//@   ensures forall k string :: k != key ==> xhas(rl.ipLimiters, k) == old(xhas(rl.ipLimiters, k)) && xget(rl.ipLimiters, k) == old(xget(rl.ipLimiters, k))
+
+//@ func (rl *RateLimitValidator) checkIPLimit
+//@   property C17
+//@   requires limit > 0
+//@   modifies rl.ipLimiters[all], ipLimiterInfo.lastAccess, ipLimiterInfo.windowStart, ipLimiterInfo.tokensUsed, gvar reserveCount, gvar cancelCount, gvar lastReservedOn, gvar lastReservation
+//@   ensures reserveCount == old(reserveCount) + 1
+//@   ensures xhas(rl.ipLimiters, bucketKey(clientIP, isHealthEndpoint)) && lastReservedOn == xget(rl.ipLimiters, bucketKey(clientIP, isHealthEndpoint)).limiter
+//@   ensures res.Allowed ==> cancelCount == old(cancelCount) && purecall("(*golang.org/x/time/rate.Reservation).OK", "bool", lastReservation) && purecall("(*golang.org/x/time/rate.Reservation).Delay", "time.Duration", lastReservation) <= 0
+//@   ensures !res.Allowed ==> !purecall("(*golang.org/x/time/rate.Reservation).OK", "bool", lastReservation) || cancelCount == old(cancelCount) + 1
+
+// the size validator's own middleware (not the one production wires up) caps the body before serving
+//@ func (sv *SizeValidator) CreateMiddleware$1$1
+//@   property C17
+//@   requires r != nil && r.URL != nil && !ghost(w).started && ghost(w).hdr != nil
+//@   modifies *
+//@   at call ServeHTTP 1 assert sv.maxBodySize > 0 ==> ghost(r.Body).limited
+//@   ensures old(sv.maxBodySize > 0 && r.ContentLength > sv.maxBodySize) ==> served == old(served) && ghost(w).status == 413
